@@ -43,10 +43,11 @@ specs of `generate`, flag `witness:*`):
   cps-rational-valueerror
         `cps()` does `controlpoints.reshape(-1, dimension)`: for rational patches (dimension+1 components) it
         raises ValueError.  Model follows the code.
-  openfoam-boundary-count-without-internal-faces
-        the patch count at the head of the `boundary` file is `len(set(names)) - 1` (the `-1` is for the
-        `None` of internal faces): a mesh without internal faces (a single cell) declares one patch too few.
-        Model follows the code.
+  openfoam-boundary-count-without-internal-faces   (FIXED in /repo 7181bd9; the label stays so that a regression is
+        reported by name) the patch count at the head of the `boundary` file was `len(set(names)) - 1` (the `-1` for
+        the `None` of internal faces): a mesh without internal faces (a single cell) declared one patch too few.  The
+        code now writes `len(set(names) - {None})`; the model mirrors that, and `C18_openfoam_order` proves
+        declared count = number of entries.
 """
 import importlib
 import itertools
